@@ -195,6 +195,20 @@ pub fn apply_fault(chunks: &[Vec<u8>], f: Fault, at: usize, pend: bool) -> Optio
 fn ent(len: u64) -> HEntity {
     let mut e = HEntity::new(len);
     e.etag = Some(b"\"s\"".to_vec());
+    // what `add_headers` supplies rotates (it is copied into every multipart part, so it is part
+    // of every announced length): nothing, one line, a repeated name, names `serve` uses itself
+    // (not Content-Length / Content-Range: an entity that supplies those itself changes what is
+    // announced, which is its own business), a long value
+    static TICK: std::sync::atomic::AtomicU64 = std::sync::atomic::AtomicU64::new(0);
+    let t = TICK.fetch_add(1, std::sync::atomic::Ordering::Relaxed);
+    e.headers = match (t.wrapping_mul(0x9E37_79B9_7F4A_7C15) >> 40) % 8 {
+        0 | 1 | 2 => vec![],
+        3 => vec![("content-type".into(), b"text/plain".to_vec())],
+        4 => vec![("x-ent-a".into(), b"1".to_vec()), ("x-ent-a".into(), b"22".to_vec()), ("x-ent-a".into(), b"".to_vec())],
+        5 => vec![("set-cookie".into(), b"a=1".to_vec()), ("content-type".into(), b"text/plain".to_vec()), ("set-cookie".into(), b"b=2".to_vec())],
+        6 => vec![("vary".into(), b"accept-encoding".to_vec()), ("accept-ranges".into(), b"none".to_vec())],
+        _ => vec![("x-long".into(), vec![b'v'; 300])],
+    };
     e
 }
 
